@@ -4,6 +4,7 @@ import DaeVerif.Common.Proto
 Line-protocol driver for C05 (op grammar: see harness/overlay/control/c05_test.go).
 
   copy <stack> <env3> <eof|err> <chunk,chunk,…|->
+  wrap <stack> <eof|err> <chunk,…|-> <act,act,…>     act = r<n> | t | p | c | w | d
   conn t0= p53= sniff= w= unpack= ctl= likely= nm= rcw= lcw= c=<script> u=<script>
 
 chunk  = h<hex> | g<seed>.<len>            (g: generated pattern, byte i = (seed + 7 i + i/251) mod 256)
@@ -80,6 +81,30 @@ def delivStr (ds : List Deliv) : String :=
   let times := if ds.isEmpty then "-" else ",".intercalate (ds.map fun d => s!"{d.t}:{d.data.length}")
   times ++ "#" ++ digest ((ds.map (·.data)).flatten)
 
+def errStr : Option Term → String
+  | none => "-"
+  | some .eof => "E"
+  | some .err => "X"
+
+/-- wrapper-level op: a sequence of actions on one wrapper; `c`/`w`/`d` end the sequence -/
+def runWrap : List String → Stack → Base → List String
+  | [], _, _ => []
+  | a :: as, st, b =>
+    let fuel := st.measure b + 1
+    let fin (o : Out) : List String := [s!"{digest o.bytes}/{boolStr o.ok}"]
+    if a = "t" || a = "p" then
+      let t := st.take
+      digest t.1 :: runWrap as t.2 b
+    else if a = "c" then fin (st.copyRemainder fuel b)
+    else if a = "w" then fin (st.writeTo fuel b)
+    else if a = "d" then fin (copyLoop relayBuf fuel st b)
+    else
+      match (a.drop 1).toString.toNat? with
+      | some n =>
+        let r := st.read n b
+        s!"{digest r.1.data}/{errStr r.1.err}" :: runWrap as r.2.1 r.2.2
+      | none => ["bad-act"]
+
 def handle (line : String) : String :=
   match words line with
   | ["copy", st, env, term, chunks] =>
@@ -89,6 +114,12 @@ def handle (line : String) : String :=
       let o := engineCopy env (st.measure b + 1) st b
       s!"out={digest o.bytes} ok={boolStr o.ok}"
     | _, _, _ => "bad-op"
+  | ["wrap", st, term, chunks, acts] =>
+    match parseStack? st, parseChunks? chunks with
+    | some st, some cs =>
+      let b : Base := ⟨cs, if term = "eof" then .eof else .err⟩
+      ";".intercalate (runWrap (acts.splitOn ",") st b)
+    | _, _ => "bad-op"
   | "conn" :: toks =>
     let r : Option String := do
       let b (k : String) : Option Bool := (kv toks k).map (· = "1")
